@@ -579,3 +579,7 @@ Section Lost.
     destruct H as (_ & _ & _ & _ & Hs & _). destruct (Hs eq_refl Ha) as (-> & _ & Hp & Hd). cbn. auto.
   Qed.
 End Lost.
+
+(** the read side resolves every committed identifier to the id the write side handed out *)
+Lemma read_id_committed st u i : idinv st -> In (u, i) (disk st) -> read_id st u = Some i.
+Proof. intros H Hin. unfold read_id. apply sIn_lookup; [apply (idinv_disk_keys _ H) | exact Hin]. Qed.
